@@ -32,6 +32,11 @@ def sx_ite(c, a, b):
     if isinstance(c, bool):
         return a if c else b
     ok = (int, SI, SB, bool)
+    if isinstance(a, SI) and isinstance(b, (int, SI)) and not isinstance(b, bool):
+        # ite(c, b | k, b) == b | ite(c, k, 0): keeps `if bit: r |= 1` chains linear instead of nesting r in both arms
+        an, bn = core.lift(a), core.lift(b)
+        if an.op == "or" and an.args[0] is bn and core.is_const(an.args[1]):
+            return b | core.s_ite(c, an.args[1].args[0], 0)
     if isinstance(a, ok) and isinstance(b, ok):
         return core.s_ite(c, a, b)
     return a if bool(c) else b  # not mergeable: fork
